@@ -484,6 +484,22 @@ def make_methods(log: Log, is_async: bool) -> Dict[str, Callable[..., Any]]:
     pd_asis.__annotations__ = {'a': int, 'b': int}
     fac['pd_asis'] = _vpd.PydanticValidator(coerce=False).validate(pd_asis)
 
+    # defaults that compare equal across methods although they are different values (1 == True == 1.0), under one validator
+    def pd_d_int(x=1):
+        log.calls.append(('pd_d_int', (x,), {}))
+        return ['pd_d_int', x]
+
+    def pd_d_bool(x=True):
+        log.calls.append(('pd_d_bool', (x,), {}))
+        return ['pd_d_bool', x]
+
+    def pd_d_float(x=1.0):
+        log.calls.append(('pd_d_float', (x,), {}))
+        return ['pd_d_float', x]
+
+    for _f in (pd_d_int, pd_d_bool, pd_d_float):
+        fac[_f.__name__] = pd_validator.validate(_f)
+
     # one validator object, two modules, the same signature text
     fac['users.create'] = pd_validator.validate(_shop_function(SHOP_USERS, log, 'users.create', lambda d: ['user', d['name']]))
     fac['orders.create'] = pd_validator.validate(_shop_function(SHOP_ORDERS, log, 'orders.create', lambda d: ['order', d['sku'], d['qty']]))
@@ -688,7 +704,7 @@ def make_broken_view(log: Log, is_async: bool):
 METHOD_NAMES = ('js_checked', 'js_loose', 'slowfail', 'byid', 'wrapped', 'whoami', 'ctxp', 'slow', 'fac1', 'fac2', 'ok', 'noargs', 'echo', 'kwonly', 'rpcerr', 'typed', 'boom', 'ctxm', 'view.vm', 'typedctor', 'raiselib', 'pd_pos', '_under',
                 'ns._dotted', 'cowrapped', 'js_draft4', 'window', 'mutate', 'broken.vm', 'odd_defaults', 'tc_only',
                 'pd_strip', 'view.cm', 'view.sm', 'cnt.bump', 'pd_even', 'js_list', 'ctxm_plain', 'pd_span', 'view.note', 'pd_asis', 'rpc.ping', 'js_ref',
-                'keyed', 'stale', 'users.create', 'orders.create')
+                'keyed', 'stale', 'users.create', 'orders.create', 'pd_d_int', 'pd_d_bool', 'pd_d_float')
 
 
 def build_registry(log: Log, coroutines: bool) -> 'pjrpc.server.MethodRegistry':
